@@ -8,7 +8,7 @@ import { canon } from '../runtime/canon.mjs';
 export const id = 'C03';
 
 export const HOSTS = ['boundImport', 'unbound', 'member', 'memberHtmlName', 'Teleport'];
-export const SHAPES = ['none', 'identBound', 'identUnbound', 'call', 'arrow', 'fnExpr', 'object', 'text', 'element', 'memberExpr', 'cond', 'mixed1', 'mixed2', 'spread', 'spreadCall', 'spreadThenText', 'nestedComp', 'wsOnly', 'elementWithDirective', 'elementWithVModel', 'litNull', 'litFalse', 'litZeroThenText', 'optMember', 'optMemberDeep', 'template', 'binary', 'newExpr', 'arrayLit', 'logicalOr', 'parenCall', 'awaitLike', 'identOwnLineLF', 'identOwnLineCR', 'callOwnLineCRLF', 'objectOwnLineCR', 'voidCall', 'voidCallThenText', 'identThenSpace', 'callThenSpace', 'spaceOnly', 'identThenNbsp', 'spaceThenIdent'];
+export const SHAPES = ['none', 'identBound', 'identUnbound', 'call', 'arrow', 'fnExpr', 'object', 'text', 'element', 'memberExpr', 'cond', 'mixed1', 'mixed2', 'spread', 'spreadCall', 'spreadThenText', 'nestedComp', 'wsOnly', 'elementWithDirective', 'elementWithVModel', 'litNull', 'litFalse', 'litZeroThenText', 'optMember', 'optMemberDeep', 'template', 'binary', 'newExpr', 'arrayLit', 'logicalOr', 'parenCall', 'awaitLike', 'identOwnLineLF', 'identOwnLineCR', 'callOwnLineCRLF', 'objectOwnLineCR', 'voidCall', 'voidCallThenText', 'identThenSpace', 'callThenSpace', 'spaceOnly', 'identThenNbsp', 'spaceThenIdent', 'identOwnLineTab', 'callOwnLineTabMixed', 'arrowOwnLineTab', 'wsOnlyTab'];
 export const KINDS = ['vnode', 'string', 'array', 'slots', 'slotfn', 'number', 'nullish'];
 export const VSLOTS = ['absent', 'ident', 'objLit'];
 export const CONTEXTS = ['arrowExpr', 'moduleLevel', 'fnBody', 'nestedBlock', 'classMethod', 'arrowInArrow', 'arrowParamDefaultExprBody', 'arrowParamDefaultAndBody', 'fnParamDefault'];
@@ -65,6 +65,11 @@ export function makeKids(b, shape, kind, st = { n: 0 }) {
     case 'identOwnLineLF': { const g = b.global(val, { log: false }); return [C.text('\n      '), { ...C.expr(b.leaf(g), g), shape: 'ident' }, C.text('\n    ')]; }
     case 'identOwnLineCR': { const g = b.global(val, { log: false }); return [C.text('\r      '), { ...C.expr(b.leaf(g), g), shape: 'ident' }, C.text('\r    ')]; }
     case 'callOwnLineCRLF': { const f = b.fnGlobal(val); return [C.text('\r\n      '), { ...C.expr(b.leaf(`${f}()`), `${f}()`), shape: 'call', fn: f }, C.text('\r\n    ')]; }
+    // tab-indented sources: a tab beside a line break is indentation exactly like a space
+    case 'identOwnLineTab': { const g = b.global(val, { log: false }); return [C.text('\n\t\t'), { ...C.expr(b.leaf(g), g), shape: 'ident' }, C.text('\n\t')]; }
+    case 'callOwnLineTabMixed': { const f = b.fnGlobal(val); return [C.text(' \t\n\t  \t'), { ...C.expr(b.leaf(`${f}()`), `${f}()`), shape: 'call', fn: f }, C.text('\t \r\n \t')]; }
+    case 'arrowOwnLineTab': { const f = b.fnGlobal({ k: 'sent' }); return [C.text('\n\t\t'), { ...C.expr(b.leaf(`() => [${f}()]`), `() => [${f}()]`), shape: 'fn' }, C.text('\n\t')]; }
+    case 'wsOnlyTab': return [C.text('\n\t')];
     case 'objectOwnLineCR': { const f = b.fnGlobal({ k: 'sent' }); const src = `{ default: () => [${f}()], other: () => ["o"] }`; return [C.text('\r  '), { ...C.expr(b.leaf(`(${src})`), src), shape: 'object' }, C.text('\r')]; }
     case 'arrow': {
       const f = b.fnGlobal({ k: 'sent' });
@@ -248,7 +253,7 @@ function build(host, shape, kind, vs, ctx) {
   return { src: b.source(), spec: { thunks: [{ name: 't0', el }], env: b.env, ctx, shape, vs } };
 }
 
-const RUNTIME_SHAPES = new Set(['identThenSpace', 'spaceThenIdent', 'identThenNbsp', 'callThenSpace', 'identOwnLineLF', 'identOwnLineCR', 'callOwnLineCRLF', 'identBound', 'identUnbound', 'call', 'cond', 'mixed1', 'mixed2', 'nestedComp', 'optMemberDeep', 'newExpr', 'arrayLit', 'logicalOr', 'parenCall', 'awaitLike']);
+const RUNTIME_SHAPES = new Set(['identOwnLineTab', 'callOwnLineTabMixed', 'identThenSpace', 'spaceThenIdent', 'identThenNbsp', 'callThenSpace', 'identOwnLineLF', 'identOwnLineCR', 'callOwnLineCRLF', 'identBound', 'identUnbound', 'call', 'cond', 'mixed1', 'mixed2', 'nestedComp', 'optMemberDeep', 'newExpr', 'arrayLit', 'logicalOr', 'parenCall', 'awaitLike']);
 const OPTS = [];
 for (const enableObjectSlots of [true, false]) for (const optimize of [false, true]) OPTS.push({ enableObjectSlots, optimize });
 // configurations that leave enableObjectSlots out (it defaults to on)
